@@ -7,9 +7,14 @@
    support enumeration is well defined, and Frank-Wolfe iterates (K <= FWK, any argmin tie-break) stay on
    the simplex, never get longer than the mean, satisfy (G a)_i >= -s sqrt(a^T G a - minnorm^2) and the
    rate a^T G a - minnorm^2 <= 8 s^2/(K+2), decided exactly (Sylvester, no square roots).
+   MGDA CONFIGURATIONS (DualCone.tla section of that name): the ladder of budgets 1 .. 60000 with the bound
+   8 s^2/(K+2) of each (upper end of the bracket of s^2) and the two presentations of epsilon = 0 (float 0.0 / int 0)
+   are exported with every scenario; MGDAConfigSound ties the ladder to the depths the model checks exactly.
 2. S -> C: every exported instance x preference vectors x eps pairs x scales 2^e (s >= norm_eps decided
-   exactly by the bracket L <= s^2 < L+1) on the real UPGrad, DualProj, MGDA(max_iters in {1,2,3,10,100} and
-   {1000, 5000} where the K = 5000 bound is not already implied at K = 100 + a seeded sample; epsilon = 0),
+   exactly by the bracket L <= s^2 < L+1) on the real UPGrad, DualProj, MGDA(max_iters in {1,2,3,10,100},
+   {1000, 5000} where the K = 5000 bound is not already implied at K = 100 + a seeded sample, and {20000, 60000} on a
+   seeded sample of the instances whose sub-optimality after 5000 iterations does not yet imply - with a factor 16
+   to spare - the bound of that budget, i.e. where Frank-Wolfe converges sub-linearly; epsilon = 0 given as 0.0 or 0),
    CAGrad(c in {1, 1.5, 3}); the inequality of the statement is evaluated with the code's own weights, the
    specification's exact minnorm^2 and s^2 <= L+1; float32 (thorough) and CAGrad at predicate level.
    BADLY SCALED family (spec/EpsScale.tla, DualCone.tla section "badly scaled"): J = 2^e D_r J0 D_c with rows / columns
@@ -20,8 +25,8 @@
    instantiated at P in {5, 7, 8, 9, 12, 16} and run on UPGrad / DualProj / MGDA / CAGrad(c in {1, 1.5, 3}) with the SAME
    inequalities and allowances; CAGrad where d2/tr >= 1e-6 is decided (clearly non-stationary), counted otherwise.
 3. C -> S: F2 episodes validated by TraceDualCone (the cone constraint ((qG + p s^2 I) w)_i >= 0 of the logged
-   weights, exactly); MGDA episodes on random integer matrices (entries -4..4, all budgets up to 5000) validated by
-   TraceMinNorm (exact minnorm^2 and s^2 bracket; rate, entry allowance, hull membership).
+   weights, exactly); MGDA episodes on random integer matrices (entries -4..4, all budgets of the ladder, 12 episodes at
+   20000 / 60000, epsilon = 0 as float / int) validated by TraceMinNorm (exact minnorm^2 and s^2 bracket; rate, entry allowance, hull membership).
 """
 
 from __future__ import annotations
@@ -33,7 +38,7 @@ import torch
 
 from ..core import Ctx, MachineryError
 from .. import badscale as BS
-from ..dualcone_replay import eval_c04, work_c04, work_c04_big, work_c04_bs
+from ..dualcone_replay import MGDA_BUDGETS_HUGE, eval_c04, heavy_map, work_c04, work_c04_big, work_c04_bs
 from ..dualcone_trace import replay_raised, rerun_episode, report_raised, exact_episodes, mgda_episode, mgda_episodes, validate_exact, validate_mgda
 from ..par import pmap
 from ..tlc import SPEC_DIR, run_tlc
@@ -119,7 +124,9 @@ def run(ctx: Ctx, replay: str | None) -> None:
         "which can only enlarge them by a factor < (L+1)/L",
         "float floors: 1e-11 s^2 |w| (float64), 1e-4 s^2 |w| (float32, predicate level) for SVD / QP / product rounding",
         "CAGrad: 'the conic solver's tolerance' is taken as 1e-6 s |A(J)| (CLARABEL default feasibility 1e-8); predicate level",
-        "MGDA's 8 s^2/(max_iters+2) for budgets > 2 is evaluated in float64 with the exact minnorm^2 of the specification",
+        "MGDA's 8 s^2/(max_iters+2) for budgets > 2 is evaluated in float64 with the exact minnorm^2 of the specification; "
+        "budgets 20000 / 60000 are run on a seeded sample (a call costs K iterations) of the instances on which the bound "
+        "is not implied by the sub-optimality measured after 5000 iterations (monotonicity of Frank-Wolfe, FWMonotone)",
         "badly scaled family (EpsScale.tla): exponents carried symbolically, s^2 bracketed in sixteenths of the trace and "
         "the hull's distance d2 decided exactly for every P >= needP; CAGrad is judged where d2/tr >= 1e-6 (every hull point "
         "is >= 10 norm_eps s away from 0: the code cannot take its stationarity branch); stationary / nearer instances are "
@@ -134,7 +141,7 @@ def run(ctx: Ctx, replay: str | None) -> None:
         elif p["kind"] == "raised":
             replay_raised(ctx, p)
         elif p["kind"] == "mgda_trace":
-            validate_mgda(ctx, [mgda_episode((p["J"], p["K"], 1))])
+            validate_mgda(ctx, [mgda_episode((p["J"], p["K"], 1, p.get("epsz", "float")))])
         else:
             validate_exact(ctx, [rerun_episode(p["episode"])], PID)
         return
@@ -148,7 +155,7 @@ def run(ctx: Ctx, replay: str | None) -> None:
         bs_res = bs_future.result()
     bs_scns = bs_scenarios(ctx, bs_res, bs_insts)
     ctx.extra["model_invariants"] = ["Feasible", "KKTExistsUnique", "MinNormOK", "FWSimplex", "FWMonotone", "FWAllowance",
-                                     "FWRate", "FWTwoRowsExact", "BracketSound"]
+                                     "FWRate", "FWTwoRowsExact", "BracketSound", "MGDAConfigSound"]
     if ctx.tier == "thorough":
         # the quantifier's exhaustive family (entries in {-1,0,1}, up to 3x3) completely; the rest by residue class
         pick = [s for s in scns if _is_unit_family(s) or
@@ -161,7 +168,7 @@ def run(ctx: Ctx, replay: str | None) -> None:
     else:
         pick = scns
     ctx.exhaustive = True          # the family named by the tier's cfg was enumerated by TLC and replayed
-    results = pmap(work_c04, [(s, ctx.tier) for s in pick], chunksize=8)
+    results = pmap(work_c04, [(s, ctx.tier, ctx.seed) for s in pick], chunksize=8)
     big: list[tuple[dict, int]] = []
     rest: list[dict] = []
     for s, r in zip(pick, results):
@@ -193,8 +200,28 @@ def run(ctx: Ctx, replay: str | None) -> None:
         big = big[:cap]
     big += [(s, 5000) for s in extra]
     ctx.count("cases_mgda_large_budget", len(big))
-    for (s, K), r in zip(big, pmap(work_c04_big, big, chunksize=2)):
+    cand: list[tuple[dict, float]] = []
+    for (s, K), r in zip(big, pmap(work_c04_big, [(s, K, ctx.seed) for s, K in big], chunksize=2)):
         ctx.evaluations += 1
+        ctx.count("cases_mgda_epsilon_" + r["epsz"])
+        for key, what, case in r["fails"]:
+            ctx.violation(key, what, {"kind": "case", "case": case})
+        if K == 5000 and r["gap"] is not None:
+            cand.append((s, r["gap"]))
+    # ---- the top of the ladder (DualCone.tla, MGDA configurations): budgets at which the bound 8 s^2/(K+2) is not yet
+    # implied - with a factor 16 to spare - by the sub-optimality the code reached after 5000 iterations, i.e. the
+    # instances on which Frank-Wolfe converges sub-linearly; a seeded sample of them per budget (a call costs K iterations)
+    huge: list[tuple[dict, int]] = []
+    for K, cap in zip(reversed(MGDA_BUDGETS_HUGE), ((6, 14) if ctx.tier == "quick" else (24, 72))):
+        ck = [s for s, g in cand if g > 8.0 / (K + 2) / 16]
+        rng.shuffle(ck)
+        ctx.count(f"mgda_budget_{K}_candidates", len(ck))
+        huge += [(s, K) for s in ck[:cap]]
+    ctx.count("cases_mgda_huge_budget", len(huge))
+    for (s, K), r in zip(huge, heavy_map(work_c04_big, [(s, K, ctx.seed) for s, K in huge])):
+        ctx.evaluations += 1
+        ctx.count("cases_mgda_epsilon_" + r["epsz"])
+        ctx.count(f"cases_mgda_budget_{K}")
         for key, what, case in r["fails"]:
             ctx.violation(key, what, {"kind": "case", "case": case})
     # ---- the badly scaled family (EpsScale.tla): instantiated at eps = 2^-P, P in {7, 8, 9} (and 5), every aggregator
@@ -214,7 +241,8 @@ def run(ctx: Ctx, replay: str | None) -> None:
             if ctx.counters["float32_cagrad_observations"] <= 8:
                 ctx.note("float32 observation (reported to the lead, not a verdict): " + o)
     for k in ("cases_upgrad", "cases_dualproj", "cases_mgda", "cases_cagrad",
-              "cases_bs_upgrad", "cases_bs_dualproj", "cases_bs_mgda", "cases_bs_cagrad"):
+              "cases_bs_upgrad", "cases_bs_dualproj", "cases_bs_mgda", "cases_bs_cagrad",
+              "cases_mgda_epsilon_int", "cases_mgda_epsilon_float") + tuple(f"cases_mgda_budget_{K}" for K in MGDA_BUDGETS_HUGE):
         if not ctx.counters.get(k):
             raise MachineryError(f"vacuous replay: {ctx.counters}")
     if ctx.counters.get("bs_cagrad_judged_instances", 0) < 200:
@@ -235,7 +263,11 @@ def run(ctx: Ctx, replay: str | None) -> None:
     # C -> S for MGDA: random integer matrices (entries -4..4, imbalanced / nearly antiparallel / generic), every budget;
     # TLC (TraceMinNorm) computes minnorm^2 and the bracket of s^2 exactly and judges the logged |A|^2 and J.A
     jobs = mgda_episodes(rng, 320 if ctx.tier == "quick" else 1600)
-    meps = pmap(mgda_episode, jobs, chunksize=4)
+    n_top = sum(1 for j in jobs if j[1] > 5000)
+    meps = heavy_map(mgda_episode, jobs[:n_top]) + pmap(mgda_episode, jobs[n_top:], chunksize=4)
+    ctx.count("mgda_trace_episodes_top_of_ladder", n_top)
+    for k_ in ("float", "int"):
+        ctx.count("mgda_trace_episodes_epsilon_" + k_, sum(1 for j in jobs if j[3] == k_))
     ctx.evaluations += len(meps)
     ctx.extra["mgda_trace_summary"] = validate_mgda(ctx, meps)
     ctx.sample({"mgda_episode": {k: meps[0][k] for k in ("J", "K", "a2lo", "a2hi", "phi")}})
